@@ -10,6 +10,8 @@
  *        a zstd-format dictionary (ZDICT_finalizeDictionary: entropy tables + content) and a multi-block source built in this driver
  *        from a random valid parse whose matches reach recent data, the start of the source and the dictionary content - in later
  *        blocks with offsets larger than dictionary content + 128 KiB, i.e. offset codes the dictionary's table does not contain
+ *        litBlocks -1 (with delimiters): a 5-byte first block, and every block closes with a 4-byte match that reaches the first byte of the dictionary
+ *        content (the largest offset the position allows); otherwise
  *        litBlocks: that many leading 128 KiB blocks hold literals only (they are emitted raw, so the dictionary's tables are still unused after them)
  *   PROD <wlog> <level> <kind> <srcSize> <seed> <maxSeqPerBlock> <failBlock> <fallback> <repSearch>
  *        ZSTD_compress2 with a registered external sequence producer (a small greedy parser inside this driver that
@@ -101,14 +103,19 @@ int main(int argc, char** argv) {
             { long i; for (i = 0; i < dcs; i++) dict[i] = (unsigned char)(rnd() >> 3); }
             seqs = malloc(sizeof(ZSTD_Sequence) * ((size_t)srcSize / 4 + 16));
             bend = 131072 < (size_t)srcSize ? 131072 : (size_t)srcSize;
-            { size_t carry = 0;
+            { size_t carry = 0; int forceFar = litBlocks < 0;       /* litBlocks -1: a 5-byte first block (explicit delimiters), and every block ends with a 4-byte match reaching the first dictionary byte */
+            if (litBlocks == -1 && delim) { size_t j; for (j = 0; j < 5; j++) src[pos++] = (unsigned char)(rnd() >> 3); seqs[ns].litLength = 5; seqs[ns].matchLength = 0; seqs[ns].offset = 0; seqs[ns].rep = 0; ns++; bend = pos + 131072 < (size_t)srcSize ? pos + 131072 : (size_t)srcSize; }
             while (litBlocks > 0 && pos + 131072 + 1000 < (size_t)srcSize) { size_t j; for (j = 0; j < 131072; j++) src[pos++] = (unsigned char)(rnd() >> 3);
                 if (delim) { seqs[ns].litLength = 131072; seqs[ns].matchLength = 0; seqs[ns].offset = 0; seqs[ns].rep = 0; ns++; } else carry += 131072;
                 bend = pos + 131072 < (size_t)srcSize ? pos + 131072 : (size_t)srcSize; litBlocks--; }
             while (pos + 80 < (size_t)srcSize) {
                 size_t ll = (rnd() % 9 == 0) ? 0 : rnd() % 400, ml = 4 + rnd() % 60, maxOff, of, j; unsigned cls = rnd() % 8;
                 if (delim && pos + ll + ml > bend) {      /* close the block: its last literals, then the next block */
-                    size_t rest = bend - pos; for (j = 0; j < rest; j++) src[pos++] = (unsigned char)(rnd() >> 3);
+                    size_t rest = bend - pos;
+                    if (forceFar && rest >= 4) { for (j = 0; j + 4 < rest; j++) src[pos++] = (unsigned char)(rnd() >> 3); of = pos + (size_t)dcs;
+                        for (j = 0; j < 4; j++) { src[pos] = of <= pos ? src[pos - of] : dict[(size_t)dcs - (of - pos)]; pos++; }
+                        seqs[ns].litLength = (unsigned)(rest - 4); seqs[ns].matchLength = 4; seqs[ns].offset = (unsigned)of; seqs[ns].rep = 0; ns++; rest = 0; }
+                    for (j = 0; j < rest; j++) src[pos++] = (unsigned char)(rnd() >> 3);
                     seqs[ns].litLength = (unsigned)rest; seqs[ns].matchLength = 0; seqs[ns].offset = 0; seqs[ns].rep = 0; ns++;
                     bend = bend + 131072 < (size_t)srcSize ? bend + 131072 : (size_t)srcSize; continue; }
                 if (pos + ll + ml + 80 > (size_t)srcSize) break;
